@@ -116,11 +116,11 @@ func check(c Case) ev.Verdict {
 	ro := c.Opts.Ref()
 	want := ref.Apply(doc, ops, ro)
 	got := lib.Apply(c.Doc, c.Patch, c.Opts)
-	if got.Panic != nil {
-		return ev.Verdict{Err: got.Panic}
-	}
 	if want.OutOfDomain() {
 		return ev.Excluded("out of domain: "+want.Res.Why, "ood")
+	}
+	if got.Panic != nil {
+		return ev.Verdict{Err: got.Panic}
 	}
 	if got.DecodeErr != nil {
 		return ev.Fail("DecodePatch rejected a valid patch: %v", got.DecodeErr)
